@@ -28,4 +28,6 @@ for d in sorted(glob.glob(os.path.join(ROOT, "seeded", "*"))):
     what = (meta.get("file") or "").split(" (")[0]
     needs = (meta.get("needs_to_manifest") or "").replace("|", "/")
     needs = needs[:140] + ("…" if len(needs) > 140 else "")
+    if meta.get("superseded_by_fix"):
+        first = "SUPERSEDED by /repo fix " + meta["superseded_by_fix"][:160]
     print(f"| {sid} | {meta.get('property')} | `{what}` | {needs} | {'yes' if ok else 'NO'} | {', '.join(caught) or 'MISSED'} | {'yes' if concrete else 'no'} | {first} |")
